@@ -166,6 +166,19 @@ PROPS["C07"] = dict(
                "types; the harness applies each through interpreter.Language and UpdateItem+GetItem on both clients and TLC compares the WHOLE "
                "resulting item with ApplyU (Expr.tla), or requires an error and an unchanged item.",
 )
+PROPS["C09"] = dict(
+    title="the expression front end is total and strict",
+    quick=[L("M_TOK", cfg="M_TOK_cond"), L("M_TOK", cfg="M_TOK_upd"), dict(kind="R", gen="strings", n=1500, maxlen=600)],
+    thorough=[L("M_TOK", cfg="M_TOK_cond_t"), L("M_TOK", cfg="M_TOK_upd_t"), dict(kind="R", gen="strings", n=20000)],
+    own=[labparts("NoCrash", "Accepted", "Placeholders", "Reserved", "Outcome", "Result", "Modified")],
+    design_ref="DESIGN.md 6 C09",
+    level_text="TLC spells every string of up to 3 (thorough: 4) tokens over a 20-token condition alphabet and a 17-token update alphabet "
+               "(names, placeholders, operators, delimiters, keywords in both letter cases, function names, path steps, an illegal character) "
+               "plus a seeded sample of longer ones; seeded random byte strings, token soups and pathological strings up to 4 KB are added. "
+               "Each runs through interpreter.Language and both client APIs in crash-proof child processes; TLC lexes and parses the BYTES with "
+               "Grammar.tla: a sentence must evaluate as Expr.tla says, a non-sentence must be rejected (error or the documented panic), and "
+               "nothing may crash, hang or succeed silently.",
+)
 
 # properties deliberately not claimed, with the reason (none so far: unbuilt ones get a work-in-progress reason)
 NOT_CLAIMED = {}
